@@ -17,6 +17,7 @@
 exception Reject of string
 let rej fmt = Printf.ksprintf (fun s -> raise (Reject s)) fmt
 
+let timers : int list ref = ref []
 let parse_acts (w : string list) : act list =
   let rec go = function
     | [] -> []
@@ -24,6 +25,11 @@ let parse_acts (w : string list) : act list =
     | "q" :: t :: r -> AQueue (nat_of_int (int_of_string t)) :: go r
     | "r" :: t :: r -> ARun (nat_of_int (int_of_string t)) :: go r
     | "ev" :: k :: r -> AOffer (nat_of_int (int_of_string k)) :: go r
+    | "ta" :: k :: r ->
+        (* loop->runAfter(0, callback k): TimerQueue::addTimer = runInLoop(addTimerInLoop); addTimerInLoop
+           arms the timerfd = makes event k ready: the internal functor is task 1000+k with script [AOffer k] *)
+        timers := int_of_string k :: !timers; ARun (nat_of_int (1000 + int_of_string k)) :: go r
+    | "pt" :: r -> go r
     | "quit" :: r -> AQuit :: go r
     | x :: _ -> failwith ("bad act " ^ x) in
   go w
@@ -37,7 +43,7 @@ let obs_of (w : string list) key =
     | x :: r -> if String.length x >= n && String.sub x 0 n = p then Some (String.sub x n (String.length x - n)) else go r in
   go w
 
-type kind = KSection | KWriteEv | KWritePipe | KReadEv | KPoll | KSilent | KEnd
+type kind = KSection | KWriteEv | KWritePipe | KTimerArm | KReadEv | KPoll | KSilent | KEnd
 
 let validate (pts : bool) (prefix : act list) (later : act list list) (progs : act list list)
     (scripts : (int * act list) list) (lines : string list) : int =
@@ -60,7 +66,7 @@ let validate (pts : bool) (prefix : act list) (later : act list list) (progs : a
     | MExec _ -> (KSilent, None)
     | MQuitStore -> (KSilent, None)
     | MQuitWake -> ((if sh.qwake il then KWriteEv else KSilent), Some "quit_mid")
-    | MOffer _ -> (KWritePipe, None) in
+    | MOffer k -> ((if int_of_nat k >= 500 then KTimerArm else KWritePipe), None) in
   let next x : kind * string option =
     let s = !st in
     if x = 0 then
@@ -93,7 +99,9 @@ let validate (pts : bool) (prefix : act list) (later : act list list) (progs : a
     passed.(x) <- false;
     let rec drop n l = if n = 0 then l else match l with [] -> [] | _ :: r -> drop (n - 1) r in
     List.iter (function
-        | EExecQ t | EExecI t -> Queue.add (Printf.sprintf "x %d" (int_of_nat t)) expected
+        | EExecQ t | EExecI t ->
+            (* tasks >= 1000 are muduo's own functors (addTimerInLoop): they log nothing *)
+            if int_of_nat t < 1000 then Queue.add (Printf.sprintf "x %d" (int_of_nat t)) expected
         | _ -> ()) (drop before !st.sg.log) in
   let lab_of x = if x = 0 then TLoop else TF (nat_of_int (x - 1)) in
   let blocked x =
@@ -151,6 +159,12 @@ let validate (pts : bool) (prefix : act list) (later : act list list) (progs : a
         if Queue.is_empty expected then rej "implementation runs task %s, the model runs none here" t;
         let e = Queue.pop expected in
         if e <> "x " ^ t then rej "implementation runs task %s, the model runs '%s'" t e
+    | ["e"; tx; "timer-armed"] ->
+        let x = tnum tx in
+        skip_point x;
+        if x = 0 && fst (next 0) <> KTimerArm && !st.sg.evq <> [] then ()
+        (* TimerQueue::reset re-arms the timerfd for a timer that is already pending: no new event *)
+        else begin need x KTimerArm "arming the timer"; do_step x (lab_of x); eager x end
     | ["e"; "T0"; "enter"] -> incr enter_tok; eager 0
     | ["e"; "T0"; "loop-returned"] ->
         (match !st.pc with LDone -> () | _ -> skip_point 0);
@@ -183,6 +197,7 @@ let validate (pts : bool) (prefix : act list) (later : act list list) (progs : a
              (match !st.pc with LHandle true -> () | _ -> rej "handleRead() although the model's wake-up channel is not active");
              do_step 0 TRead; check_obs obs; eager 0
          | "read" when obj = !piper -> ()
+         | "read" when x = 0 -> ()      (* TimerQueue::handleRead reads the (emulated) timerfd *)
          | "poll" ->
              if x <> 0 then rej "T%d polls" x;
              need 0 KPoll "poll";
@@ -237,7 +252,8 @@ let () =
            (if !kind <> "loop" then print_string "accepted 0\n"
             else
               try
-                let n = validate !pts !prefix (List.rev !later) (List.rev !progs) !scripts (List.rev !lines) in
+                let tscripts = List.map (fun k -> (1000 + k, [AOffer (nat_of_int k)])) !timers in
+                let n = validate !pts !prefix (List.rev !later) (List.rev !progs) (tscripts @ !scripts) (List.rev !lines) in
                 Printf.printf "accepted %d\n" n
               with Reject s -> Printf.printf "REJECT %s\n" s
                  | Failure s -> Printf.printf "REJECT 0: validator failure %s | -\n" s);
@@ -247,6 +263,7 @@ let () =
          match w with
          | "case" :: id :: rest ->
              cur_id := id; prefix := []; later := []; progs := []; scripts := []; lines := []; pts := true; kind := "loop";
+             timers := [];
              List.iter (fun t ->
                  if t = "pts=0" then pts := false;
                  if String.length t > 5 && String.sub t 0 5 = "kind=" then kind := String.sub t 5 (String.length t - 5)) rest
